@@ -174,6 +174,8 @@ def minimize(case, status, detail, seed):
                     cxs = P.run_pandas(cand, root, None)
             except Exception:  # noqa: BLE001
                 continue
+            if not P.in_alphabet(cand, cxs, P.steps_for) or (isinstance(cxs[-1], pd.DataFrame) and not cxs[-1].columns.is_unique):
+                continue  # stay inside the enumerated space (a-priori exclusions also hold for minimised programs)
             r = evaluate(case[:5] + (cand,) + case[6:], cxs, seed)
             if r[0] == status:
                 prog, detail, pxs, progress = list(cand), r[1], cxs, True
@@ -300,7 +302,8 @@ def run_shard(shard, ctx):
         if ctx.out_of_time():
             break
         ctx.guard(case, run_case, case, ctx, xs)
-    ctx.count("inapplicable", counters.get("inapplicable", 0))
+    for name, n in counters.items():
+        ctx.count(name, n)
 
 
 def replay(case, ctx):
